@@ -192,7 +192,9 @@ impl<F: Float, D: Distance<F>, N: NearestNeighbour> DbscanValidParams<F, D, N> {
         clusters: &Array1<Option<usize>>,
     ) -> (usize, Vec<usize>) {
         let candidate = observations.row(idx);
-        let mut res = Vec::with_capacity(self.min_points);
+        // `min_points` may exceed the number of observations by any amount (then nothing is a core
+        // point); there are never more neighbours than observations
+        let mut res = Vec::with_capacity(self.min_points.min(observations.nrows()));
         let mut count = 0;
 
         // Unwrap here is fine because we don't expect any dimension mismatch when calling
